@@ -104,3 +104,16 @@ def add_newline_to_expansion(text: str) -> str:
     if isinstance(text, str) and text.startswith(("*", ";", ":", "#", "{|")):
         return "\n" + text
     return text
+
+
+def is_positional_name(name: str) -> bool:
+    """True if a template argument name denotes a positional argument, i.e.
+    it is a positive decimal integer."""
+    if not name.isdecimal():
+        return False
+    try:
+        return int(name) > 0
+    except ValueError:
+        # more digits than int() converts (sys.get_int_max_str_digits()):
+        # an ordinary name
+        return False
